@@ -188,12 +188,12 @@ func families(quick bool) []family {
 	lists := elemLists()
 	bools := []bool{false, true}
 	var vt []Case
-	for ver := 0; ver < 2; ver++ {
+	for _, ver := range []int{0, 2, 3} {
 		for m := 0; m < 16; m++ {
 			for _, b := range bools {
 				for li := 1; li < len(lists); li++ {
 					vt = append(vt, Case{Family: "value/top", Elems: lists[li],
-						Top: Top{Version: ver * 2, Gen: m&1 != 0, Copy: m&2 != 0, Attr: m&4 != 0, Lic: m&8 != 0, Bounds: b}})
+						Top: Top{Version: ver, Gen: m&1 != 0, Copy: m&2 != 0, Attr: m&4 != 0, Lic: m&8 != 0, Bounds: b}})
 				}
 			}
 		}
@@ -224,7 +224,7 @@ func families(quick bool) []family {
 	// doc/top: version × four strings × bounds key × unknown keys × position
 	// of "elements" × layout × element list.
 	var dt []Case
-	for ver := 0; ver < 3; ver++ {
+	for ver := 0; ver < 4; ver++ {
 		for m := 0; m < 16; m++ {
 			for _, b := range bools {
 				for unk := 0; unk < nTopUnknown; unk++ {
